@@ -756,6 +756,9 @@ class Engine:
             raise Inconclusive("discriminant of %r" % (v,))
         if k == "binop":
             return self.binop(fr, rv)
+        if k == "unop" and rv.op == "PtrMetadata":
+            a = self.eval_operand(fr, rv.a)
+            return Scalar(self.len_of(self.peel(a)))
         if k == "unop":
             a = self.eval_operand(fr, rv.a)
             ty = self.operand_type(fr, rv.a)
@@ -793,7 +796,7 @@ class Engine:
             v = self.read_place(fr, rv.place)
             if isinstance(v, Agg):
                 return Scalar(z3.BitVecVal(len(v.fields), 64))
-            return Sym(("len", v), "usize")
+            return Scalar(self.len_of(v))
         if k == "aggregate":
             fields = [self._strip(self.eval_operand(fr, o)) for o in rv.fields]
             name = strip_generics(rv.name)
@@ -1058,6 +1061,54 @@ class Engine:
             if isinstance(v, Agg) and v.variant == "None":
                 return v
             return NotImplemented
+        # --- operations that can panic on text: slicing, truncate (char boundaries), unwrap of a symbolic Option/Result ---
+        if re.search(r"(String|str)::len$", c) and len(args) == 1:
+            return Scalar(self.len_of(args[0]))
+        if re.search(r"str::is_char_boundary$|String::is_char_boundary$", c) and len(args) == 2:
+            return Scalar(self.boundary(args[0], self.to_z3(args[1], "usize")))
+        if re.search(r"(str|String)::floor_char_boundary$", c) and len(args) == 2:
+            n = self.to_z3(args[1], "usize")
+            m_ = z3.BitVec("floor%d" % next(_ids), 64)
+            self.assume(z3.And(z3.ULE(m_, n), self.boundary(args[0], m_), z3.ULE(m_, self.len_of(args[0]))))
+            return Scalar(m_)
+        mi = re.match(r"<(?:std::string::)?(String|str) as Index(?:Mut)?<(?:std::ops::)?(RangeTo|Range|RangeFrom|RangeInclusive|RangeToInclusive)<usize>>>::index(?:_mut)?$", c)
+        if mi and len(args) == 2:
+            s_, rg = args[0], self.peel(args[1])
+            ln = self.len_of(s_)
+            conds = []
+            if isinstance(rg, Agg):
+                f = rg.fields
+                if mi.group(2) == "RangeTo":
+                    e_ = self.to_z3(f[0], "usize"); conds = [z3.ULE(e_, ln), self.boundary(s_, e_)]
+                elif mi.group(2) == "Range":
+                    a_, e_ = self.to_z3(f[0], "usize"), self.to_z3(f[1], "usize")
+                    conds = [z3.ULE(a_, e_), z3.ULE(e_, ln), self.boundary(s_, a_), self.boundary(s_, e_)]
+                elif mi.group(2) == "RangeFrom":
+                    a_ = self.to_z3(f[0], "usize"); conds = [z3.ULE(a_, ln), self.boundary(s_, a_)]
+            if conds:
+                ok = z3.And(conds)
+                lab = self.choose([("slice-ok", ok), ("slice-panic", z3.Not(ok))])
+                if lab == "slice-panic":
+                    self.events.append(Event("panic", c, args, None, site, extra="byte index is not a char boundary / out of range"))
+                    raise EndPath("panic", "string slice " + c.split("::")[-1])
+                return self.conv("slice", self.peel(s_))
+        if re.search(r"String::truncate$", c) and len(args) == 2:
+            n = self.to_z3(args[1], "usize")
+            ok = z3.Or(z3.UGT(n, self.len_of(args[0])), self.boundary(args[0], n))
+            lab = self.choose([("truncate-ok", ok), ("truncate-panic", z3.Not(ok))])
+            if lab == "truncate-panic":
+                self.events.append(Event("panic", c, args, None, site, extra="new_len is not a char boundary"))
+                raise EndPath("panic", "String::truncate")
+            return Agg("()", [], kind="tuple")
+        mu = re.search(r"(Result|Option)::(unwrap|expect)$", c)
+        if mu and args and isinstance(self.peel(args[0]) if isinstance(args[0], Ref) else args[0], Sym):
+            v = self.peel(args[0]) if isinstance(args[0], Ref) else args[0]
+            okd = 0 if mu.group(1) == "Result" else 1
+            lab = self.choose([("unwrap-ok", v.discr() == okd), ("unwrap-panic", v.discr() == 1 - okd)])
+            if lab == "unwrap-panic":
+                self.events.append(Event("panic", c, args, None, site, extra="unwrap on Err/None"))
+                raise EndPath("panic", "unwrap on " + ("Err" if okd == 0 else "None"))
+            return v.child(("v", "Ok" if okd == 0 else "Some", 0))
         # --- Option/Result combinators on values whose variant is known ---
         m = re.search(r"(?:Result|Option)::(unwrap_or|unwrap_or_default|unwrap|expect|ok|unwrap_or_else)$", c)
         if m and args and isinstance(self.peel(args[0]) if isinstance(args[0], Ref) else args[0], Agg):
@@ -1084,6 +1135,25 @@ class Engine:
         if c in ("std::fmt::format", "format", "alloc::fmt::format") or c.endswith("fmt::format"):
             return Agg("fmt::Formatted", [self.peel(a) for a in args], kind="struct")
         return NotImplemented
+
+    def len_of(self, v):
+        """usize length of a string / slice value (one variable per value)"""
+        o = origin(self.peel(v))
+        key = ("len", o.id if isinstance(o, (Sym, Agg)) else id(o))
+        if key not in self.convs:
+            if isinstance(o, StrV):
+                self.convs[key] = z3.BitVecVal(len(o.e.as_string().encode("utf-8")), 64)
+            else:
+                self.convs[key] = z3.BitVec("len%d" % next(_ids), 64)
+        return self.convs[key]
+
+    def boundary(self, v, n):
+        """is_char_boundary(v, n) as an uninterpreted predicate over (value, offset); offsets 0 and len are boundaries"""
+        o = origin(self.peel(v))
+        sid = o.id if isinstance(o, (Sym, Agg)) else id(o)
+        f = z3.Function("char_boundary", z3.IntSort(), z3.BitVecSort(64), z3.BoolSort())
+        ln = self.len_of(v)
+        return z3.Or(n == 0, n == ln, z3.And(z3.ULT(n, ln), f(z3.IntVal(sid), n)))
 
     def opaque_id(self, v):
         """Integer identity of a value of an opaque value type (http::Method, StatusCode, ...): distinct named
